@@ -3,6 +3,7 @@
    judgements ([conforms], [spelled]/[natural], [wrong], [wrong_lit], [var_at],
    [usage_ok]) in Spec/CoerceSpec.v, the model in Exec/CoerceModel.v. *)
 From PyGql Require Import Spec.CoerceSpec Proofs.CoerceProofs Proofs.CoerceValidBridge.
+From PyGql Require Proofs.DirIfCoercion.
 From Coq Require Import ZArith.
 
 (* Variable route: whatever coerce_value accepts is a legitimate resolver-side
@@ -98,7 +99,7 @@ Print Assumptions C07_rejects_var.
    the scalar clause of [wrong] is exactly "foreign kind and not
    lenient_scalar_case", the decidable complement of the two open findings. *)
 Theorem C07_rejects_var_exact : forall s t j,
-  schema_closed s -> bound s t -> wrong s t j ->
+  schema_closed s -> scalars_behaved s -> bound s t -> wrong s t j ->
   exists p, coerce_value s j t = Rejected RK_coercion p.
 Proof. exact wrong_rejected_exact. Qed.
 Print Assumptions C07_rejects_var_exact.
@@ -151,7 +152,7 @@ Proof. exact wrong_lit_rejected. Qed.
 Print Assumptions C07_rejects_lit.
 
 Theorem C07_rejects_lit_exact : forall s vs t l,
-  schema_closed s -> schema_inputs s -> usable s t -> wrong_lit s t l ->
+  schema_closed s -> schema_inputs s -> scalars_behaved s -> usable s t -> wrong_lit s t l ->
   exists p, value_from_ast s vs l t = Rejected RK_invalid p.
 Proof. exact wrong_lit_rejected_exact. Qed.
 Print Assumptions C07_rejects_lit_exact.
@@ -174,31 +175,32 @@ Print Assumptions C07_required_present.
    CoercionError -- nothing else, for every JSON value (the model has no fuel:
    recursion is on the value). *)
 Theorem C07_total : forall s j t,
-  schema_closed s -> bound s t ->
+  schema_closed s -> scalars_behaved s -> bound s t ->
   match coerce_value s j t with Ok _ => True | Rejected k _ => k = RK_coercion | _ => False end.
-Proof. intros s j t Hc Hb. exact (cv_total s Hc j t Hb). Qed.
+Proof. intros s j t Hc Hbh Hb. exact (cv_total s Hc Hbh j t Hb). Qed.
 Print Assumptions C07_total.
 
 (* The literal route, for every literal, type and variable map: a value or
    InvalidValue, never another exception ... *)
 Theorem C07_total_lit : forall s vs l t,
-  schema_closed s -> schema_inputs s -> usable s t ->
+  schema_closed s -> schema_inputs s -> scalars_behaved s -> usable s t ->
   match value_from_ast s vs l t with Ok _ => True | Rejected k _ => k = RK_invalid | _ => False end.
-Proof. intros s vs l t Hc Hi Hu. exact (vfa_total s Hc Hi vs l t Hu). Qed.
+Proof. intros s vs l t Hc Hi Hbh Hu. exact (vfa_total s Hc Hi Hbh vs l t Hu). Qed.
 Print Assumptions C07_total_lit.
 
 (* ... coerce_argument_values: the kwargs or CoercionError ... *)
 Theorem C07_total_args : forall s vs call defs,
-  schema_closed s -> schema_inputs s -> (forall d, In d defs -> usable s (f_ty d)) ->
+  schema_closed s -> schema_inputs s -> scalars_behaved s ->
+  (forall d, In d defs -> usable s (f_ty d)) ->
   match coerce_argument_values s defs call vs with
   | Ok _ => True | Rejected k _ => k = RK_coercion | _ => False end.
-Proof. intros s vs call defs Hc Hi Hd. exact (cav_total s Hc Hi vs call defs Hd). Qed.
+Proof. intros s vs call defs Hc Hi Hbh Hd. exact (cav_total s Hc Hi Hbh vs call defs Hd). Qed.
 Print Assumptions C07_total_args.
 
 (* ... coerce_variable_values: the variables or VariablesCoercionError, whatever
    the variable definitions and raw values ... *)
 Theorem C07_total_vars : forall s vds raw,
-  schema_closed s -> schema_inputs s ->
+  schema_closed s -> schema_inputs s -> scalars_behaved s ->
   match coerce_variable_values s vds raw with
   | Ok _ => True | Rejected k _ => k = RK_variables | _ => False end.
 Proof. exact cvv_total. Qed.
@@ -207,7 +209,8 @@ Print Assumptions C07_total_vars.
 (* ... hence a request either hands kwargs to the resolver or is rejected with
    one of the two documented errors before any resolver runs. *)
 Theorem C07_total_request : forall s defs vds call raw,
-  schema_closed s -> schema_inputs s -> (forall d, In d defs -> usable s (f_ty d)) ->
+  schema_closed s -> schema_inputs s -> scalars_behaved s ->
+  (forall d, In d defs -> usable s (f_ty d)) ->
   match exec_kwargs s defs vds call raw with
   | Ok _ => True
   | Rejected k _ => k = RK_variables \/ k = RK_coercion
@@ -215,6 +218,37 @@ Theorem C07_total_request : forall s defs vds call raw,
   end.
 Proof. exact exec_total. Qed.
 Print Assumptions C07_total_request.
+
+(* [scalars_behaved]: no scalar of the schema raises anything but ValueError /
+   TypeError from its parser (true of every scalar py-gql ships). A user
+   scalar that raises something else makes exactly that exception come out --
+   ScalarType.parse only wraps ValueError / TypeError ("other exceptions bubble
+   up") -- also past CoercionErrors already collected for earlier list items,
+   and out of variable coercion / the request: *)
+Theorem C07_user_exception_bubbles : forall s nn n,
+  alookup n s = Some (TDScalar KOdd) ->
+  coerce_value s (JInt 13) (INamed nn n) = Crash CK_user_exception
+  /\ (forall vs lc, value_from_ast s vs (VInt (str_of_string "13") lc) (INamed nn n)
+                    = Crash CK_user_exception).
+Proof. exact raising_scalar_raises. Qed.
+Print Assumptions C07_user_exception_bubbles.
+
+Theorem C07_user_exception_bubbles_list : forall s nn t l1 j l2 c,
+  (forall x, In x l1 -> match coerce_value s x t with
+                        | Ok _ => True | Rejected k _ => k = RK_coercion | _ => False end) ->
+  coerce_value s j t = Crash c ->
+  coerce_value s (JList (l1 ++ j :: l2)) (IList nn t) = Crash c.
+Proof. exact user_exception_bubbles_list. Qed.
+Print Assumptions C07_user_exception_bubbles_list.
+
+Theorem C07_user_exception_bubbles_request : forall s defs vds call raw vd j c,
+  vds = [vd] -> alookup (n_val (vd_var vd)) raw = Some j ->
+  (forall d, alookup (ity_name (ity_of_ty (vd_type vd))) s = Some d -> is_input_def d = true) ->
+  alookup (ity_name (ity_of_ty (vd_type vd))) s <> None ->
+  coerce_value s j (ity_of_ty (vd_type vd)) = Crash c ->
+  exec_kwargs s defs vds call raw = Crash c.
+Proof. exact user_exception_bubbles_request. Qed.
+Print Assumptions C07_user_exception_bubbles_request.
 
 (* Directive arguments (@skip / @include in _skip_selection, custom directives
    through ResolveInfo.get_directive_arguments and schema directives) are the
@@ -230,7 +264,8 @@ Proof. exact directive_args_sound. Qed.
 Print Assumptions C07_directive_args_sound.
 
 Theorem C07_directive_args_total : forall s defs dname ds vs,
-  schema_closed s -> schema_inputs s -> (forall d, In d defs -> usable s (f_ty d)) ->
+  schema_closed s -> schema_inputs s -> scalars_behaved s ->
+  (forall d, In d defs -> usable s (f_ty d)) ->
   match directive_arguments s defs dname ds vs with
   | Ok _ => True | Rejected k _ => k = RK_coercion | _ => False end.
 Proof. exact directive_args_total. Qed.
@@ -243,6 +278,30 @@ Theorem C07_skip_if_is_boolean : forall s dname ds vs kw,
   exists b, alookup str_if kw = Some (PBool b).
 Proof. exact skip_if_is_boolean. Qed.
 Print Assumptions C07_skip_if_is_boolean.
+
+(* The field collector shared by the C19 / C04 models (Exec/Collect.v) handles
+   @skip / @include with a hand-written [dir_if]. It is an instance of this
+   model: for every schema with the Boolean scalar, directive list and variable
+   assignment, [dir_if] is [directive_arguments] at the definition `if: Boolean!`
+   followed by the lookup of `if`, and [skip_selection] is [skip_selection_args]. *)
+Theorem C07_dir_if_is_directive_arguments : forall s dname ds vs,
+  alookup (str_of_string "Boolean") s = Some (TDScalar KBoolean) ->
+  PyGql.Exec.Collect.dir_if dname ds vs
+  = match directive_arguments s [if_arg] dname ds vs with
+    | Ok None => Ok None
+    | Ok (Some kw) => match alookup str_if kw with Some v => Ok (Some v) | None => Crash 3 end
+    | OutOfFuel => OutOfFuel
+    | Rejected k p => Rejected k p
+    | Crash c => Crash c
+    end.
+Proof. intros s dname ds vs H. exact (PyGql.Proofs.DirIfCoercion.dir_if_is_directive_arguments s H dname ds vs). Qed.
+Print Assumptions C07_dir_if_is_directive_arguments.
+
+Theorem C07_collector_skip_is_general : forall s ds vs,
+  alookup (str_of_string "Boolean") s = Some (TDScalar KBoolean) ->
+  PyGql.Exec.Collect.skip_selection ds vs = skip_selection_args s ds vs.
+Proof. intros s ds vs H. exact (PyGql.Proofs.DirIfCoercion.skip_selection_is_skip_selection_args s H ds vs). Qed.
+Print Assumptions C07_collector_skip_is_general.
 
 (* Where the hypothesis usage_ok of C07_exec_sound comes from: the per-usage
    test of VariablesInAllowedPosition as modelled for C05/C06
